@@ -40,7 +40,9 @@ Class(line, bad) ==
    ELSE IF line.c.base.comps # "full"                       \* the points listed above are nodes of the full base document;
         THEN (IF msg = NilDeref /\ Panicked(line.obs) \subseteq {"marshal_json", "marshal_yaml"}      \* on a sparse base: a null entry of an examples / links map
                  /\ \E i \in DOMAIN ms : ms[i].op = "to_null" /\ ms[i].path \in SparseNullEntries
-              THEN "nil_entry_dereferenced" ELSE "none")
+              THEN "nil_entry_dereferenced"
+              ELSE IF msg = NoName /\ Panicked(line.obs) = {"internalize"} /\ \E i \in DOMAIN ms : ms[i].op \in RefOpsF   \* F-C20-1 does not depend on the base
+              THEN "internalize_panics_unresolvable_ref_name" ELSE "none")
    ELSE IF msg = NoName /\ Panicked(line.obs) = {"internalize"} /\ \E i \in DOMAIN ms : ms[i].op \in RefOpsF
         THEN "internalize_panics_unresolvable_ref_name"
    ELSE IF msg = NilDeref /\ \E i \in DOMAIN ms : IsKnownNilPoint(ms[i])
